@@ -58,6 +58,7 @@ type Monitors struct {
 	taint        string
 	lease        *leaseState
 	reported     map[int][3]uint64 // per node: last index, last term, current term reported at the latest quiescent point
+	reportedCfg  map[int]string    // per node: latest configuration reported at the latest quiescent point
 	electCommit  map[[2]int]uint64 // commit index of a server at the instant it became leader
 	convFlagged  bool
 	convReached  bool
@@ -76,7 +77,7 @@ type Monitors struct {
 func newMonitors(w *World) *Monitors {
 	return &Monitors{w: w, agreed: map[uint64]fact{}, leaders: map[uint64]int{}, senders: map[uint64]int{}, streams: map[[2]int]*fsmStream{},
 		lastCommit: map[[2]int]uint64{}, lastTerm: map[int]uint64{}, grants: map[grantKey]string{}, notify: map[[2]int][]bool{}, leadGains: map[[2]int]int{},
-		storedIDs: map[string]bool{}, transitions: map[[2]int]int{}, wasLeader: map[[2]int]bool{}, leaderAt: map[uint64]leaderRec{}, restoreFloor: map[[2]int]uint64{}, floorByData: map[string]uint64{}, isSeen: map[string]*isRec{}, electCommit: map[[2]int]uint64{}, reported: map[int][3]uint64{}}
+		storedIDs: map[string]bool{}, transitions: map[[2]int]int{}, wasLeader: map[[2]int]bool{}, leaderAt: map[uint64]leaderRec{}, restoreFloor: map[[2]int]uint64{}, floorByData: map[string]uint64{}, isSeen: map[string]*isRec{}, electCommit: map[[2]int]uint64{}, reported: map[int][3]uint64{}, reportedCfg: map[int]string{}}
 }
 
 // rootCause records a violation that is the origin of others: every later
@@ -195,7 +196,11 @@ func (m *Monitors) OnBooted(node, inc int, r *raft.Raft) {
 		if r.LastIndex() != rep[0] || lt != rep[1] {
 			m.fail("C10", "log-differs-from-before-the-crash", "n%d reported last entry (%d, term %d) before it was stopped at rest; restarted as n%d.%d it reports (%d, term %d)", node, rep[0], rep[1], node, inc, r.LastIndex(), lt)
 		}
+		if rc, ok := m.reportedCfg[node]; ok && rc != fmt.Sprint(got.Servers) {
+			m.fail("C10", "configuration-differs-from-before-the-crash", "n%d acted on configuration %s before it was stopped at rest; restarted as n%d.%d it reports %v", node, rc, node, inc, got.Servers)
+		}
 		delete(m.reported, node)
+		delete(m.reportedCfg, node)
 	}
 	m.checkTermMonotone(node, r.CurrentTerm(), "restart")
 }
@@ -204,6 +209,7 @@ func (m *Monitors) OnBooted(node, inc int, r *raft.Raft) {
 func (m *Monitors) OnCrash(node, inc int, mid bool) {
 	if mid {
 		delete(m.reported, node)
+		delete(m.reportedCfg, node)
 	}
 }
 
@@ -729,6 +735,7 @@ func (m *Monitors) AtQuiescent() {
 			lt = d0.LastSnapTerm
 		}
 		m.reported[n.id] = [3]uint64{r.LastIndex(), lt, r.CurrentTerm()}
+		m.reportedCfg[n.id] = fmt.Sprint(d0.Latest.Servers)
 		if r.State() == raft.Leader {
 			leadersUp = append(leadersUp, n)
 		}
